@@ -332,7 +332,7 @@ def wellPlaced (cfg : Config) (f : FileRec) : Bool :=
   && decide (f.t0 ≤ f.t1) && decide (f.t1 ≤ maxT)
   && (match subDirRes cfg.layout with
       | none => true
-      | some r => decide (f.t1 - f.t0 ≤ r))
+      | some r => (cfg.layout.flatMap (·.fields)).isEmpty || decide (f.t1 - f.t0 ≤ r))
   -- user placeholder values of the directory names are those of the whole path
   && f.dirs.all (fun v => v.users.all fun nv => f.users.lookup nv.1 == some nv.2)
 
